@@ -91,7 +91,15 @@ theorem bnEval_sound : ∀ (fuel : Nat) (ρ : TEnv) (e : AST) (v : TVal), bnEval
                     · cases h
                   · split at h
                     · rename_i hn; cases h; exact BN.mkList hn
-                    · cases h
+                    · split at h
+                      · rename_i hn
+                        split at h
+                        · rename_i a
+                          split at h
+                          · rename_i elems ha; cases h; exact BN.lenList hn (ih _ _ _ ha)
+                          · cases h
+                        · cases h
+                      · cases h
       · rename_i hl
         have hf : tagOf f = none := by rw [← isLit_eq_tagOf]; exact hl
         split at h
